@@ -276,6 +276,13 @@ class G:
             if cand:
                 self.steps.append({"op": "enable", "ts": r.choice(cand)})
                 return
+        if 0.68 <= x < 0.70 and dis and self.cls not in ("timers", "idle"):
+            # disable() of a disabled fd-backed source: fails (nothing is registered) and has no effect
+            cand = [s for s in dis if self.decl(s)["kind"] != "timer"
+                    and not any(c.get("transient") for c in self.decl(s).get("children", []))]
+            if cand:
+                self.steps.append({"op": "disable", "ts": r.choice(cand)})
+                return
         if 0.70 <= x < 0.72 and dis and self.cls not in ("timers", "idle"):
             # update() of a disabled fd-backed source: fails (nothing is registered) and changes nothing
             cand = [s for s in dis if self.decl(s)["kind"] != "timer"
@@ -612,6 +619,8 @@ def pat_defer(rnd, sid):
             p = {"ops": ops}
             if d["s"] == 1 and k == 0:
                 ops.append({"op": r.choice(["disable", "update"]), "ts": 1})
+                if r.random() < 0.25:
+                    ops.append({"op": "remove", "ts": 1})          # ... and removes itself as well
                 if d["kind"] == "comp":
                     p["ret"] = r.choice(["reregister", "disable", "remove", "err", "continue"])
                 elif d["kind"] == "timer":
@@ -671,6 +680,16 @@ def pat_timers(rnd, sid):
                 steps += [{"op": "enable", "ts": d["s"]}]
             elif x < 0.4:
                 steps += [{"op": "update", "ts": d["s"]}]
+            elif x < 0.47:
+                # the deadline field is pushed back WITHOUT update(): the arming in the wheel stays, the timer still fires
+                # at its old deadline
+                steps += [{"op": "set_deadline", "s": d["s"], "d": tick + r.choice([4, 6])}]
+            elif x < 0.54:
+                # a switched-off timer is given a new deadline and update()d (which arms it again), then switched off again
+                steps += [{"op": "disable", "ts": d["s"]}, {"op": "set_deadline", "s": d["s"], "d": tick + 1},
+                          {"op": "update", "ts": d["s"]}, {"op": "disable", "ts": d["s"]}]
+                if r.random() < 0.5:
+                    steps += [{"op": "enable", "ts": d["s"]}]
         if other is not None and r.random() < 0.6:
             steps.append({"op": "ping", "s": other["s"]} if other["kind"] == "ping" else {"op": "wr", "s": other["s"], "c": 0})
         if r.random() < 0.3:
